@@ -145,3 +145,7 @@ def run(ctx):
                           'cell-family-from-wallpaper:%s' % adt, where(ib, bi), 'Cell2::from_family(wallpaper.family, ..)',
                           'the cell is not created in the family of the requested group')
     rep.floor('R4', 'from_family call sites in initialise', k, 2)
+    # R5: the operations applied are those of the named group: the table obligations of C16 (group axioms, general positions,
+    # point-group signatures) are a necessary condition of "has the symmetry of its wallpaper group" (imported)
+    from .common import import_obligations
+    import_obligations(ctx, 'C16', 'R5', only_rules={'R1', 'R2', 'R3'}, floor=20)
